@@ -54,7 +54,26 @@ bool FnEmitter::emitIntrinsic(const CallBase& CB, const Function* callee) {
           if (BO->getOpcode() == Instruction::Mul)
             for (unsigned k = 0; k < 2; ++k)
               if (auto* C = dyn_cast<ConstantInt>(BO->getOperand(k))) { uint64_t c = C->getZExtValue(); maxElem = c ? (c & (~c + 1)) : 1; }
-        } else {
+        }
+        // length = (char*)p - (char*)q of two T* pointers (std::vector, std::copy of trivially copyable ranges): a multiple of sizeof(T)
+        bool isDiff = false;
+        if (auto* BO = dyn_cast<BinaryOperator>(L))
+          if (BO->getOpcode() == Instruction::Sub)
+            if (auto* P0 = dyn_cast<PtrToIntOperator>(BO->getOperand(0)))
+              if (auto* P1 = dyn_cast<PtrToIntOperator>(BO->getOperand(1))) {
+                Type* E0 = P0->getPointerOperand()->stripPointerCasts()->getType()->getPointerElementType();
+                Type* E1 = P1->getPointerOperand()->stripPointerCasts()->getType()->getPointerElementType();
+                Type* E = P0->getPointerOperand()->getType()->getPointerElementType();
+                for (Type* Cand : {E0, E1, E})
+                  if (Cand->isSized() && !Cand->isFunctionTy() && !Cand->isIntegerTy(8) && T.DL.getTypeAllocSize(Cand) > 0) {
+                    maxElem = T.DL.getTypeAllocSize(Cand);
+                    if (!ET || T.DL.getTypeAllocSize(ET) != maxElem)
+                      if (Cand->isIntegerTy() || Cand->isPointerTy() || Cand->isFloatingPointTy() || Cand->isStructTy()) ET = Cand;
+                    isDiff = true;
+                    break;
+                  }
+              }
+        if (!isDiff && !isa<BinaryOperator>(L)) {
           // unknown multiple: trust the element type only if both pointers agree on it
           Type* P0 = CB.getArgOperand(0)->stripPointerCasts()->getType()->getPointerElementType();
           Type* P1 = CB.getArgOperand(1)->stripPointerCasts()->getType()->getPointerElementType();
@@ -66,7 +85,10 @@ bool FnEmitter::emitIntrinsic(const CallBase& CB, const Function* callee) {
         ET = nullptr;
       }
       std::string et = ET ? ty(ET) : (maxElem >= 8 ? "uint64_t" : maxElem >= 4 ? "uint32_t" : maxElem >= 2 ? "uint16_t" : "uint8_t");
-      body << "  VF_TYPED_" << (mv ? "MOVE" : "COPY") << "(" << et << ", " << A(0) << ", " << A(1) << ", (uint64_t)" << A(2) << ");\n";
+      if (et == "uint8_t") // outlined: the loop keeps the stable id vf_byte_copy.0 / vf_byte_move.0,1 for --unwindset
+        body << "  vf_byte_" << (mv ? "move" : "copy") << "(" << A(0) << ", " << A(1) << ", (uint64_t)" << A(2) << ");\n";
+      else
+        body << "  VF_TYPED_" << (mv ? "MOVE" : "COPY") << "(" << et << ", " << A(0) << ", " << A(1) << ", (uint64_t)" << A(2) << ");\n";
       return true;
     }
     body << "  x_" << (mv ? "memmove" : "memcpy") << "(" << A(0) << ", " << A(1) << ", (uint64_t)" << A(2) << ");\n"; return true;
@@ -165,7 +187,17 @@ void FnEmitter::emitCall(const CallBase& CB) {
     std::string a = IA->getAsmString();
     if (a == "pause" || a == "pause;" || a == "rep; nop" || a == "rep; nop;") {
       body << "  VF_PAUSE();\n";
-      if (step) body << "  if (vf_dead || (vf_probe_mode && vf_blocked[" << tid << "])) return;\n";
+      if (step) {
+        body << "  if (vf_dead) return;\n";
+        // probe mode never loops inside one call (CBMC merges states at the loop head and would unwind to the limit):
+        // after the first pause the thread is parked at the next scheduling point of the loop and the scheduler
+        // calls the step function once more - everything that second call reads is fresh
+        {
+          int pp = nextPc++;
+          pcs.push_back(pp);
+          body << "  if (vf_probe_mode) { vf_pc[" << tid << "] = " << pp << "; return; }\n R" << pp << ": ;\n";
+        }
+      }
       return;
     }
     if (a.empty()) return; // compiler barrier
